@@ -7,6 +7,9 @@ adversary).  The state *before* each modifier is obtained by replaying the
 specification prefix under the same PRNG seed.
 """
 import itertools
+import json
+import os
+import sys
 
 import networkx
 
@@ -17,7 +20,7 @@ from cnfgen.clitools.cnfgen import cli as cnfgen_cli
 import cnfgen.clitools.msg as climsg
 from cnfgen.graphs import readGraph
 
-from detsim.core import Violation, call, exc_signature
+from detsim.core import Violation, call, canon, exc_signature
 from detsim.refmodels import graphref
 from detsim.runner import REPO
 from detsim.simio import SimFS, open_router, text_reader
@@ -65,9 +68,10 @@ MANIFEST = {
                  "seam, prefix replay under the same seed, structural oracle",
 }
 CONFIGS = {
-    "quick": [("lib", 24000), ("cli", 700)],
-    "thorough": [("lib", 12), ("cli", 1)],
+    "quick": [("lib", 24000), ("cli", 700), ("optimized", 80)],
+    "thorough": [("lib", 12), ("cli", 1), ("optimized", 1)],
 }
+RUN_TIMEOUT_S = 180
 CHUNK = 150
 
 
@@ -178,6 +182,15 @@ def _gen_huge(rng):
 
 
 def generate(rng, config):
+    if config == "optimized":
+        # the interpreter may run with -O / PYTHONOPTIMIZE (no 'assert'
+        # statements): requests are judged as in the default mode
+        case = generate(rng, "plain")
+        case["save"] = case["resave"] = case["save_pos"] = None
+        case["optimized"] = True
+        case["prng"] = {"seed": rng.randrange(2 ** 32), "strategy": None,
+                        "budget": 0}
+        return case
     if config == "lib" and rng.random() < 0.03:
         return _gen_huge(rng)
     gtype = rng.choice(["simple", "simple", "bipartite", "bipartite", "dag"])
@@ -345,7 +358,7 @@ def classify(case):
         if any(x <= 0 for x in a):
             return ("invalid",)
         if len(a) == 0:
-            return ("gray", "no dimensions")
+            return ("invalid",)       # a grid needs at least one dimension
         if c == "torus" and any(x <= 2 for x in a):
             return ("gray", "degenerate torus dimension")
         return ("valid", {"dims": a})
@@ -671,7 +684,74 @@ def _exec_huge(case, ctx):
     ctx.probe("lazy construction with a side beyond 2^53")
 
 
+_OPT_DRIVER = """
+import json, random, sys
+from cnfgen.clitools.graph_args import make_graph_from_spec
+spec = json.loads(sys.argv[1])
+random.seed(spec["seed"])
+try:
+    G = make_graph_from_spec(spec["type"], spec["toks"])
+    if G.is_bipartite():
+        st = [G.left_order(), G.right_order()]
+    else:
+        st = [G.number_of_vertices()]
+    print(json.dumps({"ok": True, "state": st,
+                      "edges": sorted(list(e) for e in G.edges())}))
+except ValueError as e:
+    print(json.dumps({"ok": False, "exc": "ValueError"}))
+except BaseException as e:
+    print(json.dumps({"ok": False, "exc": type(e).__name__}))
+"""
+
+
+def _exec_optimized(case, ctx):
+    """The same request in a fresh interpreter with and without -O: a
+    request is met or refused independently of the optimisation level."""
+    import subprocess
+    toks = _spec(case)
+    arg = canon({"type": case["type"], "toks": toks,
+                 "seed": case["prng"]["seed"]})
+    outs = []
+    for flag in ([], ["-O"]):
+        env = {"PATH": os.environ.get("PATH", "/usr/bin:/bin"),
+               "PYTHONPATH": REPO, "PYTHONHASHSEED": "0",
+               "PYTHONDONTWRITEBYTECODE": "1"}
+        p = subprocess.run([sys.executable, "-W", "ignore"] + flag +
+                           ["-c", _OPT_DRIVER, arg], capture_output=True,
+                           env=env, timeout=80)
+        line = p.stdout.decode("utf-8", "replace").strip().splitlines()
+        outs.append(json.loads(line[-1]) if line else
+                    {"ok": False, "exc": "no output: %r" % p.stderr[-200:]})
+        ctx.fault("fresh_interpreter" + ("_python_-O" if flag else ""))
+    ctx.log("optimized", toks, [o["ok"] for o in outs],
+            [o.get("exc") for o in outs])
+    ctx.shape = ("optimized", case["type"], tuple(toks))
+    ctx.nontrivial = True
+    where = "type=%s spec=%r seed=%r" % (case["type"], " ".join(toks),
+                                         case["prng"]["seed"])
+    plain, opt = outs
+    if plain["ok"] != opt["ok"] or plain.get("exc") != opt.get("exc"):
+        raise Violation(
+            "C15/%s/outcome-depends-on-python-O" % case["construction"],
+            "%s\ndefault mode: %r\nwith -O: %r" %
+            (where, {k: plain[k] for k in plain if k != "edges"},
+             {k: opt[k] for k in opt if k != "edges"}))
+    if not plain["ok"] and plain["exc"] != "ValueError":
+        ctx.note("request ends in %s in both modes (judged by the lib "
+                 "configuration)" % plain["exc"])
+    if plain["ok"] and (plain["state"] != opt["state"] or
+                        plain["edges"] != opt["edges"]):
+        raise Violation(
+            "C15/%s/graph-depends-on-python-O" % case["construction"],
+            "%s\ndefault mode: %r %r\nwith -O: %r %r" %
+            (where, plain["state"], plain["edges"][:20], opt["state"],
+             opt["edges"][:20]))
+    ctx.probe("same outcome with and without -O")
+
+
 def execute(case, ctx):
+    if case.get("optimized"):
+        return _exec_optimized(case, ctx)
     if case.get("cli"):
         return _exec_cli(case, ctx)
     if case.get("huge"):
